@@ -403,7 +403,7 @@ func (g *FuncGen) typeFacts(st *State, t string, ty types.Type) {
 			g.assume(st, fmt.Sprintf("(or (= %s 0) (select %s %s))", t, st.heap["$alloc"], t))
 		}
 	case strings.HasPrefix(s, "(Sq "):
-		g.fact(fmt.Sprintf("(and (<= 0 (slen %s)) (<= (slen %s) 140737488355328))", t, t))
+		g.fact(fmt.Sprintf("(and (<= 0 (slen %s)) (<= (slen %s) 2147483647))", t, t))
 	}
 }
 
@@ -411,6 +411,7 @@ func (g *FuncGen) freshVal(st *State, prefix string, ty types.Type) Val {
 	s := sortOf(ty)
 	n := g.fresh(prefix, s)
 	g.typeFacts(st, n, ty)
+	g.seqWF(st, n, ty)
 	return Val{n, ty, s}
 }
 
@@ -423,6 +424,7 @@ func (g *FuncGen) heapGet(st *State, key, elemSort string) string {
 	if _, ok := g.heapKeys[key]; !ok {
 		g.heapKeys[key] = elemSort
 		g.emit(fmt.Sprintf("(declare-const %s (Array Int %s))", n, elemSort))
+		g.heapWF(key, n, "alloc_0")
 	}
 	if g.entry != nil {
 		if _, ok := g.entry.heap[key]; !ok {
@@ -563,6 +565,9 @@ func (g *FuncGen) heapSort(key string) string {
 		}
 		return "(Array Int " + s + ")"
 	}
+	if s, ok := g.P.fieldSort(key); ok {
+		return "(Array Int " + s + ")"
+	}
 	return "(Array Int Int)"
 }
 
@@ -632,4 +637,44 @@ func zeroArr(inner string) string {
 		return "zarr_Bytes"
 	}
 	return fmt.Sprintf("((as const (Array Int %s)) %s)", inner, zeroOf(inner))
+}
+
+// fieldType returns the Go type of the field behind a heap key.
+func (p *Prog) fieldType(key string) types.Type {
+	for _, n := range p.Structs {
+		pref := namedKey(n) + "."
+		if strings.HasPrefix(key, pref) {
+			st := n.Underlying().(*types.Struct)
+			for i := 0; i < st.NumFields(); i++ {
+				if st.Field(i).Name() == key[len(pref):] {
+					return st.Field(i).Type()
+				}
+			}
+		}
+	}
+	return nil
+}
+
+// heapWF: typed-heap invariant (Go memory safety): references stored in allocated objects are nil or allocated.
+func (g *FuncGen) heapWF(key, arr, alloc string) {
+	ft := g.P.fieldType(key)
+	if ft == nil {
+		return
+	}
+	switch {
+	case isRefType(ft):
+		g.emit(fmt.Sprintf("(assert (forall ((r Int)) (! (=> (select %s r) (or (= (select %s r) 0) (select %s (select %s r)))) :pattern ((select %s r)))))", alloc, arr, alloc, arr, arr))
+	case sortOf(ft) == "(Sq Int)" && isRefType(elemType(ft)):
+		g.emit(fmt.Sprintf("(assert (forall ((r Int) (k Int)) (! (=> (and (select %s r) (<= 0 k) (< k (slen (select %s r)))) (or (= (select (selems (select %s r)) k) 0) (select %s (select (selems (select %s r)) k)))) :pattern ((select (selems (select %s r)) k)))))", alloc, arr, arr, alloc, arr, arr))
+	}
+}
+
+// seqWF: elements of a sequence of references are nil or allocated.
+func (g *FuncGen) seqWF(st *State, t string, ty types.Type) {
+	if ty == nil || st == nil {
+		return
+	}
+	if sortOf(ty) == "(Sq Int)" && isRefType(elemType(ty)) {
+		g.assume(st, fmt.Sprintf("(forall ((k Int)) (! (=> (and (<= 0 k) (< k (slen %s))) (or (= (select (selems %s) k) 0) (select %s (select (selems %s) k)))) :pattern ((select (selems %s) k))))", t, t, st.heap["$alloc"], t, t))
+	}
 }
